@@ -1126,7 +1126,7 @@ pub fn parse(lex_tokens: &Vec<LexerToken>) -> Result<ParseResult, CompilerError>
                             // an ended group with nothing in it still has the assumed right that was never created
                             // (a group holding only a side effect already points at that existing node)
                             let right_not_created = left_node.right.map_or(true, |r| r >= current_id);
-                            if left_node.definition.is_optional() || (left == ended_group && right_not_created) {
+                            if (left_node.definition.is_optional() || left == ended_group) && right_not_created {
                                 left_node.right = None;
                             }
 
@@ -1202,8 +1202,8 @@ pub fn parse(lex_tokens: &Vec<LexerToken>) -> Result<ParseResult, CompilerError>
                             None => implementation_error_with_token(format!("Index assigned to node has no value in node list. {:?}", left), token)?,
                             Some(left_node) => {
                                 // check last left for optional
-                                // unset its right if so
-                                if left_node.definition.is_optional() {
+                                // unset its right if so (unless a side effect already took that place)
+                                if left_node.definition.is_optional() && left_node.right.map_or(true, |r| r >= current_id) {
                                     left_node.right = None;
                                 }
 
